@@ -977,6 +977,46 @@ pub fn check_c16(cfg: &TrainCfg, m: &mut Model, kf: &[KnownFinding], st: &mut St
                 });
                 return false;
             }
+        } else if mdims.0 >= 3 || mdims.1 >= 3 {
+            // "can stand in": the usual next step on a compiled dictionary is the connection-id
+            // reordering; the mapped bigram dictionary must still agree with the equally mapped matrix
+            let rot = |n: usize| -> Vec<u16> { (1..n).map(|i| if i + 1 < n { (i + 1) as u16 } else { 1 }).collect() };
+            let (rmap, lmap) = (rot(mdims.0), rot(mdims.1));
+            // the i-th item (1-origin) of a mapping is the old id that becomes id i
+            let new_of = |map: &Vec<u16>, old: usize| if old == 0 { 0 } else { map.iter().position(|&o| o as usize == old).unwrap() + 1 };
+            let mapped = guard(|| bd.map_connection_ids_from_iter(lmap.iter().cloned(), rmap.iter().cloned()));
+            let table = match mapped {
+                Ok(Ok(d2)) => conn_table(&d2).ok().filter(|x| x.0 == mdims).map(|x| x.1),
+                _ => None,
+            };
+            let Some(bt2) = table else {
+                st.violation(Finding {
+                    class: "mapped-bigram-dictionary-unusable".into(),
+                    what: format!("{} dictionary compiled from the bigram files: mapping its connection ids failed or changed its dimensions [{} {tag}]", if dual { "dual" } else { "raw" }, cfg.name),
+                    replay: files(json!({"lmap": lmap, "rmap": rmap})),
+                });
+                return false;
+            };
+            st.count("mapped_bigram_dictionaries_compared");
+            for r in 0..mdims.0 {
+                for l in 0..mdims.1 {
+                    let (nr, nl) = (new_of(&rmap, r), new_of(&lmap, l));
+                    let got = i64::from(bt2[nr * mdims.1 + nl]);
+                    let want = i64::from(mt[r * mdims.1 + l]);
+                    if (got - want).abs() > k as i64 + 1 {
+                        st.violation(Finding {
+                            class: "mapped-bigram-vs-matrix".into(),
+                            what: format!(
+                                "{} connector after mapping ids (rotation): cost({nr},{nl}) = {got} but matrix.def has {want} for the original pair ({r},{l}) (K = {k}) [{} {tag}]",
+                                if dual { "dual" } else { "raw" },
+                                cfg.name
+                            ),
+                            replay: files(json!({"pair": [r, l], "lmap": lmap, "rmap": rmap})),
+                        });
+                        return false;
+                    }
+                }
+            }
         }
     }
     true
@@ -1121,9 +1161,9 @@ pub fn run_c16(tier: Tier) -> i32 {
     let kf = load_known_findings();
     let mut st = Stats::default();
     run_family(Which::C16, tier, &mut st, &kf);
-    rep.rule = "state = (training configuration of the C14 family, really trained; then injected weight vectors); the emitted (lex, bigram.left/right/cost) files are compiled with the raw and the dual connector and (lex, matrix.def) with the matrix connector; for every id pair incl. row/column 0 the costs must differ by at most K+1, and the dimensions must agree; distinct = distinct (configuration, weight count)".into();
+    rep.rule = "state = (training configuration of the C14 family, really trained; then injected weight vectors); the emitted (lex, bigram.left/right/cost) files are compiled with the raw and the dual connector and (lex, matrix.def) with the matrix connector; for every id pair incl. row/column 0 the costs must differ by at most K+1, and the dimensions must agree; the compiled raw/dual dictionary is then id-mapped (rotation of both sides) and must agree, pair by pair, with the equally permuted matrix.def; distinct = distinct (configuration, weight count)".into();
     rep.bounds = json!({"max_iter": tier.pick(5, 30), "injected_weights": tier.pick(3, 5), "K": "0-3"});
-    rep.finish(st, &["models_trained", "raw_dictionaries_compared", "dual_dictionaries_compared", "id_pairs_with_nonzero_matrix_cost", "weight_vectors_injected"])
+    rep.finish(st, &["models_trained", "raw_dictionaries_compared", "dual_dictionaries_compared", "mapped_bigram_dictionaries_compared", "id_pairs_with_nonzero_matrix_cost", "weight_vectors_injected"])
 }
 
 /// C17 at the dictionary level: configurations whose rewrite.def has sections with and without
@@ -1207,151 +1247,213 @@ fn roundtrip(m: &Model) -> Result<Model, String> {
     }
 }
 
+/// One state of the C15 exploration: the in-memory model, its reloaded twin (once a round trip
+/// happened) and what the oracle needs to remember.
+struct MState {
+    a: Model,
+    t: Option<Model>,
+    users_before_split: bool,
+    users_added_to_twin: bool,
+    last_a: Option<Outputs>,
+}
+
+impl MState {
+    /// Copy made with the `verif_twin` hook (field by field, not through the model codec).
+    fn copy(&self) -> Result<MState, String> {
+        let a = self.a.verif_twin().map_err(|e| e.to_string())?;
+        let t = match &self.t {
+            None => None,
+            Some(t) => Some(t.verif_twin().map_err(|e| e.to_string())?),
+        };
+        Ok(MState { a, t, users_before_split: self.users_before_split, users_added_to_twin: self.users_added_to_twin, last_a: self.last_a.clone() })
+    }
+
+    /// Applies one operation to both models in lock-step; Err((class, what)) on an oracle failure.
+    fn step(&mut self, op: MOp, k: usize, st: &mut Stats) -> Result<(), (String, String)> {
+        match op {
+            MOp::WriteRead => {
+                if self.t.is_some() && self.users_added_to_twin {
+                    // re-loading the twin drops its user entries (session state)
+                    self.users_before_split = true;
+                }
+                let src = self.t.as_ref().unwrap_or(&self.a);
+                match roundtrip(src) {
+                    Ok(m) => self.t = Some(m),
+                    Err(e) => return Err(("model-roundtrip-fails".into(), format!("step {k}: {e}"))),
+                }
+                st.count("roundtrips");
+            }
+            MOp::AddUser(i) => {
+                if self.t.is_none() {
+                    self.users_before_split = true;
+                } else {
+                    self.users_added_to_twin = true;
+                }
+                let a = &mut self.a;
+                let r1 = guard(|| a.read_user_lexicon(USER_MENU[i].as_bytes()));
+                let r2 = self.t.as_mut().map(|t| guard(|| t.read_user_lexicon(USER_MENU[i].as_bytes())));
+                if !matches!(r1, Ok(Ok(()))) || r2.map_or(false, |r| !matches!(r, Ok(Ok(())))) {
+                    return Err(("read_user_lexicon-fails".into(), format!("step {k}")));
+                }
+                self.last_a = None;
+                st.count("user_lexicons_added");
+            }
+            MOp::Generate | MOp::GenerateBigram => {
+                let oa = outputs(&mut self.a).map_err(|e| ("generation-fails".to_string(), format!("step {k}: {e}")))?;
+                if let Some(prev) = &self.last_a {
+                    if *prev != oa {
+                        return Err(("generating-twice-differs".into(), format!("step {k}: generating again from the same model gives different files")));
+                    }
+                    st.count("repeated_generations_compared");
+                }
+                self.last_a = Some(oa.clone());
+                if let Some(tm) = self.t.as_mut() {
+                    let ot = outputs(tm).map_err(|e| ("generation-from-reloaded-model-fails".to_string(), format!("step {k}: {e}")))?;
+                    st.count("reloaded_vs_in_memory_generations_compared");
+                    let mut diff = vec![];
+                    if oa.lex != ot.lex {
+                        diff.push("lex.csv");
+                    }
+                    if oa.matrix != ot.matrix {
+                        diff.push("matrix.def");
+                    }
+                    if oa.unk != ot.unk {
+                        diff.push("unk.def");
+                    }
+                    if oa.left != ot.left {
+                        diff.push("bigram.left");
+                    }
+                    if oa.right != ot.right {
+                        diff.push("bigram.right");
+                    }
+                    if oa.cost != ot.cost {
+                        diff.push("bigram.cost");
+                    }
+                    if !self.users_before_split && oa.user != ot.user {
+                        diff.push("user.csv");
+                    }
+                    if !diff.is_empty() {
+                        return Err((format!("reloaded-model-generates-different-{}", diff[0]), format!("step {k}: files differ between the in-memory model and its reloaded twin: {:?}", diff)));
+                    }
+                }
+            }
+        }
+        Ok(())
+    }
+}
+
+/// Depth-first exploration of all operation histories from one trained model; every node is
+/// reached by copying its parent's state (no retraining) and applying one operation.
+fn c15_dfs(cfg: &TrainCfg, ci: usize, node: &MState, hist: &mut Vec<MOp>, ops: &[MOp], depth: usize, k6_open: bool, st: &mut Stats) {
+    let report = |st: &mut Stats, hist: &[MOp], class: String, what: String| {
+        st.violation(Finding {
+            class,
+            what: format!("{what} [{} history {:?}]", cfg.name, hist),
+            replay: json!({"kind": "model_history", "config": cfg.describe(), "history": format!("{hist:?}")}),
+        });
+    };
+    let menu: Vec<MOp> = if hist.len() < depth { ops.to_vec() } else { vec![MOp::Generate] };
+    let leaf = hist.len() >= depth;
+    for op in menu {
+        let mut child = match node.copy() {
+            Ok(c) => c,
+            Err(e) => {
+                println!("MACHINERY: verif_twin failed: {e}");
+                std::process::exit(2);
+            }
+        };
+        st.states += 1;
+        st.transitions += 1;
+        hist.push(op);
+        match child.step(op, hist.len() - 1, st) {
+            Err((class, what)) => {
+                // K6: rucrf's merge() panics on a model whose bigram weight table is empty
+                let k6 = class.starts_with("generation") && what.contains("rucrf") && what.contains("model.rs") && {
+                    let raw_bytes = child.a.verif_raw_model_bytes();
+                    bincode::decode_from_slice::<RawMirror, _>(&raw_bytes, bcfg()).map_or(false, |x| x.0.bwi.is_empty())
+                };
+                if k6 && k6_open {
+                    st.known("K6", "a trained model with an empty bigram weight table cannot be written out (panic inside rucrf's merge())");
+                    st.count("k6_explained");
+                } else {
+                    report(st, hist, class, what)
+                }
+            }
+            Ok(()) => {
+                st.outcome(&(ci, child.last_a.as_ref().map(|o| (o.lex.clone(), o.matrix.clone(), o.user.clone()))));
+                if !leaf {
+                    c15_dfs(cfg, ci, &child, hist, ops, depth, k6_open, st);
+                }
+            }
+        }
+        hist.pop();
+    }
+}
+
 pub fn run_c15(tier: Tier) -> i32 {
     let mut rep = Report::new("C15", tier);
     let kf = load_known_findings();
     let mut fam = family(tier);
     // models without user lexicons in the configuration (the history adds them)
     fam.retain(|c| c.users.is_empty());
-    let stride = tier.pick(40, 24);
+    let stride = tier.pick(2, 1);
     let fam: Vec<TrainCfg> = fam.into_iter().enumerate().filter(|(i, _)| i % stride == 0).map(|x| x.1).collect();
     let depth = tier.pick(3, 4);
     let ops = [MOp::Generate, MOp::GenerateBigram, MOp::WriteRead, MOp::AddUser(0), MOp::AddUser(1), MOp::AddUser(2)];
-    let hists: Vec<Vec<MOp>> = all_seqs(ops.len(), depth).into_iter().map(|s| s.into_iter().map(|i| ops[i]).collect()).collect();
     let max_iter = tier.pick(5, 20);
     let st = par_explore(fam.len(), |ci, st| {
         let cfg = &fam[ci];
-        // K6 models cannot generate at all
-        {
-            let Ok(mut m) = train(cfg, max_iter) else {
-                st.count("training_failed (see C14)");
-                return;
-            };
-            if let Err(e) = outputs(&mut m) {
-                if e.contains("rucrf") && is_open(&kf, "C15", "K6") {
-                    st.known("K6", "a trained model with an empty bigram weight table cannot be written out (panic inside rucrf's merge())");
-                    return;
-                }
+        let Ok(mut m) = train(cfg, max_iter) else {
+            st.count("training_failed (see C14)");
+            return;
+        };
+        // binding of the copy hook to the code: the model and a copy of it taken at once are driven
+        // through the same operations (generate, add a user lexicon, generate, copy again,
+        // generate) and must produce the same files / the same failures at every step
+        let mut c = match m.verif_twin() {
+            Ok(c) => c,
+            Err(e) => {
+                println!("MACHINERY: verif_twin failed: {e}");
+                std::process::exit(2);
             }
+        };
+        // K6 models cannot generate at all
+        let base = outputs(&mut m);
+        let mut bound = outputs(&mut c) == base;
+        if let Err(e) = &base {
+            if !bound {
+                println!("MACHINERY: a verif_twin copy fails differently from its original [{}]", cfg.name);
+                std::process::exit(2);
+            }
+            if e.contains("rucrf") && is_open(&kf, "C15", "K6") {
+                st.known("K6", "a trained model with an empty bigram weight table cannot be written out (panic inside rucrf's merge())");
+            }
+            return;
         }
         st.count("models");
-        for h in &hists {
-            st.states += 1;
-            st.transitions += 1;
-            let case = || json!({"kind": "model_history", "config": cfg.describe(), "history": format!("{h:?}")});
-            let mut a = match train(cfg, max_iter) {
-                Ok(m) => m,
-                Err(_) => return,
-            };
-            let mut t: Option<Model> = None;
-            let mut users_before_split = false;
-            let mut users_added_to_twin = false;
-            let mut last_a: Option<Outputs> = None;
-            let mut bad: Option<(String, String)> = None;
-            let mut steps: Vec<MOp> = h.clone();
-            steps.push(MOp::Generate); // final comparison
-            for (k, op) in steps.iter().enumerate() {
-                match op {
-                    MOp::WriteRead => {
-                        if t.is_some() && users_added_to_twin {
-                            // re-loading the twin drops its user entries (session state)
-                            users_before_split = true;
-                        }
-                        let src = t.as_ref().unwrap_or(&a);
-                        match roundtrip(src) {
-                            Ok(m) => t = Some(m),
-                            Err(e) => {
-                                bad = Some(("model-roundtrip-fails".into(), format!("step {k}: {e}")));
-                                break;
-                            }
-                        }
-                        st.count("roundtrips");
-                    }
-                    MOp::AddUser(i) => {
-                        if t.is_none() {
-                            users_before_split = true;
-                        } else {
-                            users_added_to_twin = true;
-                        }
-                        let r1 = guard(|| a.read_user_lexicon(USER_MENU[*i].as_bytes()));
-                        let r2 = t.as_mut().map(|t| guard(|| t.read_user_lexicon(USER_MENU[*i].as_bytes())));
-                        if !matches!(r1, Ok(Ok(()))) || r2.map_or(false, |r| !matches!(r, Ok(Ok(())))) {
-                            bad = Some(("read_user_lexicon-fails".into(), format!("step {k}")));
-                            break;
-                        }
-                        last_a = None;
-                        st.count("user_lexicons_added");
-                    }
-                    MOp::Generate | MOp::GenerateBigram => {
-                        let oa = match outputs(&mut a) {
-                            Ok(o) => o,
-                            Err(e) => {
-                                bad = Some(("generation-fails".into(), format!("step {k}: {e}")));
-                                break;
-                            }
-                        };
-                        if let Some(prev) = &last_a {
-                            if *prev != oa {
-                                bad = Some(("generating-twice-differs".into(), format!("step {k}: generating again from the same model gives different files")));
-                                break;
-                            }
-                            st.count("repeated_generations_compared");
-                        }
-                        last_a = Some(oa.clone());
-                        if let Some(tm) = t.as_mut() {
-                            let ot = match outputs(tm) {
-                                Ok(o) => o,
-                                Err(e) => {
-                                    bad = Some(("generation-from-reloaded-model-fails".into(), format!("step {k}: {e}")));
-                                    break;
-                                }
-                            };
-                            st.count("reloaded_vs_in_memory_generations_compared");
-                            let mut diff = vec![];
-                            if oa.lex != ot.lex {
-                                diff.push("lex.csv");
-                            }
-                            if oa.matrix != ot.matrix {
-                                diff.push("matrix.def");
-                            }
-                            if oa.unk != ot.unk {
-                                diff.push("unk.def");
-                            }
-                            if oa.left != ot.left {
-                                diff.push("bigram.left");
-                            }
-                            if oa.right != ot.right {
-                                diff.push("bigram.right");
-                            }
-                            if oa.cost != ot.cost {
-                                diff.push("bigram.cost");
-                            }
-                            if !users_before_split && oa.user != ot.user {
-                                diff.push("user.csv");
-                            }
-                            if !diff.is_empty() {
-                                bad = Some((format!("reloaded-model-generates-different-{}", diff[0]), format!("step {k}: files differ between the in-memory model and its reloaded twin: {:?}", diff)));
-                                break;
-                            }
-                        }
-                    }
-                }
+        {
+            let ui = ci % USER_MENU.len();
+            let mut m2 = m.verif_twin().unwrap();
+            let r1 = guard(|| c.read_user_lexicon(USER_MENU[ui].as_bytes()));
+            let r2 = guard(|| m2.read_user_lexicon(USER_MENU[ui].as_bytes()));
+            bound &= matches!(r1, Ok(Ok(()))) == matches!(r2, Ok(Ok(())));
+            bound &= outputs(&mut c) == outputs(&mut m2);
+            let mut c3 = c.verif_twin().unwrap();
+            bound &= outputs(&mut c3) == outputs(&mut m2);
+            if !bound {
+                println!("MACHINERY: a verif_twin copy of a trained model does not behave like the model [{}]", cfg.name);
+                std::process::exit(2);
             }
-            st.outcome(&(ci, last_a.as_ref().map(|o| (o.lex.clone(), o.matrix.clone()))));
-            if let Some((class, what)) = bad {
-                st.violation(Finding {
-                    class,
-                    what: format!("{what} [{} history {:?}]", cfg.name, h),
-                    replay: case(),
-                });
-            }
+            st.count("copy_hook_bound_to_original");
         }
+        let root = MState { a: m, t: None, users_before_split: false, users_added_to_twin: false, last_a: None };
+        c15_dfs(cfg, ci, &root, &mut vec![], &ops, depth, is_open(&kf, "C15", "K6"), st);
         if ci % 13 == 0 {
-            st.sample(json!({"config": cfg.name, "histories": hists.len(), "example_history": format!("{:?}", hists[hists.len() / 2])}));
+            st.sample(json!({"config": cfg.name, "history_depth": depth, "operations": format!("{ops:?}")}));
         }
     });
-    rep.rule = format!("state = (really trained model of a slice of the C14 family, history of <= {depth} ops over {{generate, generate-bigram, write_model->read_model, add user lexicon U1, add U2}}); from the first round trip on the in-memory model and its reloaded twin run in lock-step and every generation compares lex/matrix/unk/user/bigram.left/bigram.right bytes and the multiset of bigram.cost lines; generating twice from the same model must give identical files; distinct = distinct (model, final files)");
+    rep.rule = format!("state = (really trained model of a slice of the C14 family, history of <= {depth} ops over {{generate, generate-bigram, write_model->read_model, add user lexicon U1, U2, U3}} followed by a final generation); the history tree is explored depth-first, each node reached by copying its parent's pair of models field by field (hook verif_twin, not the model codec; per model the copy is bound to the code by driving the original and its copy through the same operations and comparing every output); from the first round trip on the in-memory model and its reloaded twin run in lock-step and every generation compares lex/matrix/unk/user/bigram.left/bigram.right bytes and the multiset of bigram.cost lines; generating twice from the same model must give identical files; distinct = distinct (model, final files)");
     rep.bounds = json!({"history_depth": depth, "models": fam.len(), "max_iter": max_iter});
     rep.assumptions = vec!["user lexicons added before a round trip are session state that write_model does not persist: for such histories user.csv is not compared".into()];
-    rep.finish(st, &["models", "roundtrips", "user_lexicons_added", "repeated_generations_compared", "reloaded_vs_in_memory_generations_compared"])
+    rep.finish(st, &["models", "copy_hook_bound_to_original", "roundtrips", "user_lexicons_added", "repeated_generations_compared", "reloaded_vs_in_memory_generations_compared"])
 }
